@@ -440,6 +440,7 @@ func (b *c06Builder) build(f *ssa.Function) *c06View {
 		fs  ens.FactSet
 	}
 	var pendSites []pendSite
+	var pendConds []string
 	for qi := 0; qi < len(units); qi++ {
 		u := units[qi]
 		g := u.g
@@ -509,7 +510,7 @@ func (b *c06Builder) build(f *ssa.Function) *c06View {
 				switch in := in.(type) {
 				case *ssa.If:
 					if atom := c06CondAtom(in.Cond, func(x ssa.Value) string { return sub(a.D.D(x)) }); atom != "" && !c06Noise(atom) && !strings.Contains(atom, "q.iconfig.verifysignatures(") {
-						v.conds[u.tag+atom]++
+						pendConds = append(pendConds, u.tag+atom)
 					}
 				case ssa.CallInstruction:
 					lbl := callLabel(in.Common())
@@ -569,6 +570,17 @@ func (b *c06Builder) build(f *ssa.Function) *c06View {
 					v.nSites++
 				}
 			}
+		}
+	}
+	for _, atom := range pendConds {
+		skip := false
+		for l := range inlLabels {
+			if strings.Contains(atom, l+"(") {
+				skip = true // a test of an inlined helper's result: the helper's own tests stand in for it
+			}
+		}
+		if !skip {
+			v.conds[atom]++
 		}
 	}
 	for _, pe := range pendExits {
